@@ -15,6 +15,7 @@ package main
 
 import (
 	"encoding/json"
+	"fmt"
 	"os"
 	"sync"
 
@@ -167,4 +168,46 @@ func (ex *Exec) lockProps() []string {
 		}
 	}
 	return out
+}
+
+// checkExhaustive: a loop declared `exhaustive` is left only through its
+// header. An edge (or a return) that leaves the loop from one of its body
+// blocks is an obligation that this path is infeasible.
+func (ex *Exec) checkExhaustive(fr *Frame, from, to *ssa.BasicBlock, st *State, loops map[*ssa.BasicBlock]*loopInfo) {
+	if !fr.top || ex.contract == nil || !ex.full || st.PC.IsFalse() {
+		return
+	}
+	for _, li := range loops {
+		spec := ex.contract.Loops[li.index]
+		if spec == nil || (!spec.Exhaustive && len(spec.ExitAsserts) == 0) {
+			continue
+		}
+		if !li.body[from] {
+			continue
+		}
+		if to != nil && li.body[to] {
+			continue
+		}
+		pos := from.Instrs[len(from.Instrs)-1].Pos()
+		// the loop is being left here
+		if len(spec.ExitAsserts) > 0 {
+			env := ex.localEnv(fr, st)
+			ctx := &EvalCtx{ex: ex, st: st, old: ex.entry, env: env, oldEnv: ex.entryEnv, pkg: ex.contract.Pkg, fnPos: ex.fn.Pos()}
+			for i, a := range spec.ExitAsserts {
+				c, err := ctx.evalBool(a.Expr)
+				if err != nil {
+					ex.contractProblem("%s: loop %d exit: %v", a.Pos, li.index, err)
+					continue
+				}
+				label := a.Label
+				if label == "" {
+					label = fmt.Sprintf("%d", i+1)
+				}
+				ex.oblige("assert@loop-exit", fmt.Sprintf("loop%d:%s", li.index, label), pos, a.Props, st, c)
+			}
+		}
+		if spec.Exhaustive && from != li.head {
+			ex.oblige("loop-exhaustive", fmt.Sprintf("loop%d", li.index), pos, ex.contract.Props, st, ex.ts.False())
+		}
+	}
 }
